@@ -845,3 +845,41 @@ def sane(value):
                 if _segments_touch(p0, p1, flat[j], flat[(j + 1) % n]):
                     return False
     return True
+
+
+def live_near_degenerate(X, Y, lo=1e-9, hi=1e-4):
+    """True when some crossing of the straight edges of two *live* values falls in the
+    library's tolerance band next to a vertex: closer to an end of either edge than `hi`
+    (in parameter) without coinciding with it (within `lo`).  A crossing that coincides with
+    a vertex left by an earlier split is ordinary inherited state; one that misses it by
+    1e-6 is the degenerate band of the absolute tolerances (split drops nodes within 1e-6 of
+    an end, point-on-curve uses 1e-6)."""
+    for cha in chains_of(X):
+        for sa in cha:
+            if len(sa) != 2:
+                continue
+            p0, p1 = (float(sa[0][0]), float(sa[0][1])), (float(sa[1][0]), float(sa[1][1]))
+            r = (p1[0] - p0[0], p1[1] - p0[1])
+            for chb in chains_of(Y):
+                for sb in chb:
+                    if len(sb) != 2:
+                        continue
+                    q0, q1 = (float(sb[0][0]), float(sb[0][1])), (float(sb[1][0]), float(sb[1][1]))
+                    if max(p0[0], p1[0]) < min(q0[0], q1[0]) - 1e-3 or max(q0[0], q1[0]) < min(p0[0], p1[0]) - 1e-3:
+                        continue
+                    if max(p0[1], p1[1]) < min(q0[1], q1[1]) - 1e-3 or max(q0[1], q1[1]) < min(p0[1], p1[1]) - 1e-3:
+                        continue
+                    sv = (q1[0] - q0[0], q1[1] - q0[1])
+                    den = r[0] * sv[1] - r[1] * sv[0]
+                    if den == 0:
+                        continue
+                    w = (q0[0] - p0[0], q0[1] - p0[1])
+                    t = (w[0] * sv[1] - w[1] * sv[0]) / den
+                    u = (w[0] * r[1] - w[1] * r[0]) / den
+                    if t < -hi or t > 1 + hi or u < -hi or u > 1 + hi:
+                        continue
+                    for par in (t, u):
+                        d = min(abs(par), abs(par - 1))
+                        if lo < d < hi:
+                            return True
+    return False
